@@ -144,6 +144,11 @@ def produced(run, names):
             except (F.NotCovered, ValueError, UnicodeError):
                 ref = None
             if ref is not None:
+                if ref != hs:
+                    # the independent grammar renders these settings differently: the reference string is what other
+                    # implementations write, it must parse and come back unchanged
+                    run.count("produced_differs_from_reference_rendering")
+                    check_string(run, name, h, ref, pw, ctx, "reference-rendering", st)
                 grammar_variants(run, name, h, bname, ref, pw, ctx, st, rng)
 
 
